@@ -21,7 +21,9 @@ RULE = (
     "library-built tables), a pressure pair (p_i on/off a node; p_f/p_i uniform in (0.01,0.99) or 1-10^-u, u in "
     "[1,5]), nx 3..400, a time grid (uniform, quadratic, geometric, random log-uniform steps 1e-8.."
     "1e4, 1..5 very large steps 1e3..1e12, grids with repeated times, non-zero start) and a schedule (none, "
-    "constant, stepwise non-increasing, arbitrary within [p_min, p_i]); 1 in 4 cases is an IdealReservoir. "
+    "constant, stepwise non-increasing, arbitrary within [p_min, p_i]); 2 in 8 cases are an IdealReservoir, 1 in 8 a "
+    "TwoPhaseReservoir on the shipped oil+water tables through FlowPropertiesTwoPhase.from_table (admissible "
+    "Brooks-Corey sets; tables without positive mobility and storage derivative are discarded). "
     "Non-trivial = at least 2 steps, positive drawdown and one of: p_f/p_i > 0.9, a step with mesh ratio > 100, a "
     "schedule with >= 2 distinct values, relaxation bound < 1e-3 of the drawdown. Distinct = hash of the case record."
 )
@@ -38,10 +40,13 @@ LEVEL_TEXT = (
 )
 
 
+CLASSES = ("single", "single", "single", "single", "single", "ideal", "ideal", "twophase")
+
+
 def strategy(tier):
     if tier == "quick":
-        return flowcase.sim_case(nx_max=400, max_steps=160, table_nmax=120)
-    return flowcase.sim_case(nx_max=400, max_steps=1500, table_nmax=400)
+        return flowcase.sim_case(nx_max=400, max_steps=160, table_nmax=120, classes=CLASSES)
+    return flowcase.sim_case(nx_max=400, max_steps=1500, table_nmax=400, classes=CLASSES)
 
 
 def a_min_scaled(r: flowcase.Run):
@@ -71,7 +76,11 @@ def relaxation_bound(r: flowcase.Run):
 
 def check_case(case) -> Result:
     res = Result()
-    r = flowcase.run(case)
+    try:
+        r = flowcase.run(case)
+    except flowcase.Inadmissible as e:
+        res.skipped = str(e)
+        return res
     res.labels.update(flowcase.labels(case, r))
     if not flowcase.sound_field(r.res, r, res):
         return res
